@@ -265,6 +265,71 @@ func (c *engineCtx) snapshot(step int, sol nextroute.Solution) {
 	fmt.Fprintf(out, "%s score %s | %s\n", p, num(sol.Score()), strings.Join(terms, " "))
 }
 
+// estimates asks every built-in constraint of the model for its estimate of the
+// move on its own (the solution only sees the first violated one) and lists
+// the violated ones with their SkipVehicle hint, sorted by name.  The vehicle
+// end time and the maximum duration are one estimate in the model ("end").
+func (c *engineCtx) estimates(mv nextroute.SolutionMoveStops) string {
+	viol := map[string]bool{}
+	skip := map[string]bool{}
+	for _, k := range c.model.Constraints() {
+		name := ""
+		switch kk := k.(type) {
+		case nextroute.AttributesConstraint:
+			name = "attributes"
+		case nextroute.MaximumStopsConstraint:
+			name = "max_stops"
+		case nextroute.MaximumWaitStopConstraint:
+			name = "wait_stop"
+		case nextroute.MaximumWaitVehicleConstraint:
+			name = "wait_vehicle"
+		case nextroute.MaximumDurationConstraint:
+			name = "end"
+		case nextroute.Maximum:
+			id := kk.(nextroute.Identifier).ID()
+			if id == "distance_limit" {
+				name = "distance"
+			}
+			for r, e := range c.resExprs {
+				if e != nil && e == kk.Expression() {
+					name = "capacity_" + strconv.Itoa(r)
+				}
+			}
+		default:
+			switch fmt.Sprintf("%v", k) {
+			case "late_end_penalty":
+				name = "end"
+			case "late_start_penalty":
+				name = "latest_start"
+			}
+		}
+		if name == "" {
+			continue
+		}
+		v, h := k.EstimateIsViolated(mv)
+		if v {
+			viol[name] = true
+			if h != nil && h.SkipVehicle() {
+				skip[name] = true
+			}
+		}
+	}
+	names := make([]string, 0, len(viol))
+	for n := range viol {
+		names = append(names, n)
+	}
+	sort.Strings(names)
+	var sb strings.Builder
+	for _, n := range names {
+		if skip[n] {
+			sb.WriteString(" " + n + ":skip")
+		} else {
+			sb.WriteString(" " + n + ":noskip")
+		}
+	}
+	return sb.String()
+}
+
 func (c *engineCtx) buildPositions(sol nextroute.Solution, vehicle int, args []string) (nextroute.SolutionPlanStopsUnit, nextroute.StopPositions, error) {
 	// args: s1 g1 s2 g2 ...
 	n := len(args) / 2
@@ -742,6 +807,7 @@ func runEngine(b block) {
 				}
 				if fs[1] == "planchecked" {
 					fmt.Fprintf(out, "%s %d move executable %v\n", b.id, step, mv.IsExecutable())
+					fmt.Fprintf(out, "%s %d est%s\n", b.id, step, c.estimates(mv))
 				}
 				ok, err := mv.Execute(context.Background())
 				switch {
